@@ -833,3 +833,8 @@ CORPUS += [
     V("C06", "pctsp-checker-literal-requirement-again", _PC, '(p.sum(-1) >= td["prize_required"] - 1e-5)', "(p.sum(-1) >= 1 - 1e-5)", "C06.a"),
     V("C06", "pctsp-checker-tolerance-on-strict-side", _PC, '(p.sum(-1) >= td["prize_required"] - 1e-5)', '(p.sum(-1) >= td["prize_required"] + 1e-5)', "C06.b"),
 ]
+
+CORPUS += [
+    V("C18", "center-sampler-half-width-again", "rl4co/envs/common/utils.py", "Uniform(low=(high + low) / 2, high=(high + low) / 2)", "Uniform(low=(high - low) / 2, high=(high - low) / 2)", "C18.b"),
+    V("C18", "eq-center-sampler-reassociated", "rl4co/envs/common/utils.py", "Uniform(low=(high + low) / 2, high=(high + low) / 2)", "Uniform(low=low + (high - low) / 2, high=low + (high - low) / 2)", None),
+]
